@@ -357,8 +357,8 @@ def job(args):
         from ..interp import AFuncRef
         from ..npmodel import deep_copy
         fsolve, fexp = sm.func('pdesolver', 'solvePDE'), sm.func('pdesolver', 'solveExplicitPDE')
-        hi_face = FACES[1]
-        Gh = tuple(w.N[k] + 1 if k == 0 else w.t[k] for k in range(d))
+        hi_face = FACES[0]                                            # the low face of the first axis, as in P4
+        Gh = tuple(ZERO if k == 0 else w.t[k] for k in range(d))
         Pin = tuple(w.t)
         rec = []
         sol = lambda a, k: (rec.append(a), Box(flat_vector(w, 'sol')))[1]
